@@ -68,7 +68,7 @@ func (sc *soundCase) literalTwin(r *gen.Rand) *soundCase {
 var litsAfterParam = []string{"/", "/a", "/books", "-", ".", "-x", ".json", "/Edit", "/c++", "/a:b:c", "-x*y*", "/::x", ".v(1)+"}
 
 func genSoundCase(r *gen.Rand) *soundCase {
-	sc := &soundCase{Cfg: Cfg{CaseSensitive: r.Bool(), Strict: r.Bool(), Unescape: false, CustomCtx: r.Chance(1, 4)}, Use: r.Chance(1, 4)}
+	sc := &soundCase{Cfg: Cfg{CaseSensitive: r.Bool(), Strict: r.Bool(), Unescape: r.Chance(1, 3), CustomCtx: r.Chance(1, 3)}, Use: r.Chance(1, 4)}
 	n := r.Range(1, 4) // number of params
 	names := []string{"id", "name", "p", "q", "Key", "x1"}
 	gen.Shuffle(r, names)
@@ -105,6 +105,9 @@ func genSoundCase(r *gen.Rand) *soundCase {
 		sc.bad = append(sc.bad, bad)
 		sc.odd = append(sc.odd, odd)
 		last := i == n-1
+		if !last && r.Chance(1, 8) && (t.Kind == tNamed || t.Kind == tNamedOpt) {
+			continue // adjacent parameters ("/:sign:param" is documented)
+		}
 		if !last || r.Chance(1, 2) {
 			pool := litsAfterParam
 			lit := gen.Pick(r, pool)
@@ -120,6 +123,17 @@ func genSoundCase(r *gen.Rand) *soundCase {
 			sc.odd = append(sc.odd, nil)
 		} else if !last {
 			// adjacent params (allowed by the docs: "/:sign:param")
+		}
+	}
+	// adjacency is only kept between two named parameters (the documented "/:sign:param");
+	// a named parameter directly followed by a greedy one has no unique reading
+	for i := 0; i+1 < len(toks); i++ {
+		if toks[i].Kind != tLit && toks[i+1].Kind != tLit &&
+			!((toks[i].Kind == tNamed || toks[i].Kind == tNamedOpt) && (toks[i+1].Kind == tNamed || toks[i+1].Kind == tNamedOpt)) {
+			toks = append(toks[:i+1], append([]tok{{Kind: tLit, Lit: "/"}}, toks[i+1:]...)...)
+			sc.good = append(sc.good[:i+1], append([][]string{nil}, sc.good[i+1:]...)...)
+			sc.bad = append(sc.bad[:i+1], append([][]string{nil}, sc.bad[i+1:]...)...)
+			sc.odd = append(sc.odd[:i+1], append([][]string{nil}, sc.odd[i+1:]...)...)
 		}
 	}
 	sc.Pat = pattern{Toks: toks}
@@ -261,6 +275,13 @@ func runSound(e *ev.Env) {
 			if p == "" || p[0] != '/' {
 				p = "/" + p
 			}
+			if sc.Cfg.Unescape && len(p) > 1 && r.Chance(1, 3) {
+				// percent-encode one byte (not a slash): with UnescapePath the handler sees the decoded path
+				i := r.Range(1, len(p)-1)
+				if p[i] != '/' && p[i] != '%' && p[i] != '+' {
+					p = p[:i] + fmt.Sprintf("%%%02X", p[i]) + p[i+1:]
+				}
+			}
 			paths = append(paths, p)
 		}
 		checkSound(e, c, sc, paths)
@@ -282,6 +303,7 @@ func checkSound(e *ev.Env, c *ev.Case, sc *soundCase, paths []string) {
 	app := sc.Cfg.NewApp()
 	app.RegisterCustomConstraint(evenConstraint{})
 	app.RegisterCustomConstraint(lowerConstraint{})
+	app.RegisterCustomConstraint(upperConstraint{})
 	keys := sc.Pat.paramKeys()
 	var obs soundObs
 	h := func(cx fiber.Ctx) error {
@@ -399,8 +421,15 @@ func checkSound(e *ev.Env, c *ev.Case, sc *soundCase, paths []string) {
 		if bad {
 			continue
 		}
-		// (a) reconstruction
-		want := sc.normalize(p)
+		// (a) reconstruction; with UnescapePath the request path is the decoded one the handler sees
+		reqPath := p
+		if sc.Cfg.Unescape {
+			reqPath = obs.path
+			if strings.Contains(p, "%") {
+				e.Stat("ran_on_percent_encoded_path", 1)
+			}
+		}
+		want := sc.normalize(reqPath)
 		ok := false
 		for _, cand := range sc.candidates(vals) {
 			cn := sc.normalize(cand)
@@ -409,7 +438,7 @@ func checkSound(e *ev.Env, c *ev.Case, sc *soundCase, paths []string) {
 				break
 			}
 			// the pattern makes a trailing slash optional when it ends in one
-			if strings.HasSuffix(cand, "/") && sc.normalize(strings.TrimRight(cand, "/")) == sc.normalize(strings.TrimRight(p, "/")) {
+			if strings.HasSuffix(cand, "/") && sc.normalize(strings.TrimRight(cand, "/")) == sc.normalize(strings.TrimRight(reqPath, "/")) {
 				ok = true
 				break
 			}
